@@ -194,6 +194,7 @@ class ParserEngine(ParserCore, CanParse):
 
         self.set_left_recursion_guard(key)
 
+        depth = len(self.states.state_stack)
         self.states.new()
         try:
             self.next_token(ri)
@@ -214,7 +215,9 @@ class ParserEngine(ParserCore, CanParse):
             self.memoize(key, e)
             raise
         finally:
-            self.states.undo()
+            # also drops the scopes left open by a FailedSemantics raised
+            # from within the rule body (it is not a FailedParse)
+            del self.states.state_stack[depth:]
 
     def func_call(self, ri: RuleInfo) -> Any:
         with self.statescope():
